@@ -56,6 +56,25 @@ CLAIMED["C19"] = (
     "Trusted: Lean kernel (+propext, Classical.choice, Quot.sound); the hand-written model; thread creation is observed on the implementation (threads / _io_loops), not modelled.",
 )
 
+CLAIMED["C10"] = (
+    "DESIGN.md section 5, C10",
+    "Lean 4 theorems about the metadata component of every node's update program (per-kind lemmas over arbitrary arrival lists, closure induction over the interpreter) + deterministic differential correspondence of the tag lists at every arrive/emit event",
+    "Proof: one-to-one kinds pass metadata unchanged (oneToOne_passes_metadata and per-kind theorems), flatten attaches it to the last piece (flatten_metadata), batching and combining kinds deliver the concatenation for the members in member order (partition_metadata, partitionUnique_metadata, slidingWindow_metadata incl. after a downstream failure, collect_flush_metadata, zip_metadata, combineLatest_metadata, zipLatest_metadata), nothing in means nothing out (no_metadata_in_no_metadata_out), and at graph level every entry anywhere in any session comes from a top-level emission (tags_come_from_input; any graph, cyclic included, failing runs included). Flatness is by typing in the model; the implementation's shape (list of dicts) is checked by the correspondence.",
+    "Trusted: Lean kernel (+propext, Classical.choice, Quot.sound); the hand-written model; metadata dictionaries identified by integer tags in the harness.",
+)
+CLAIMED["C15"] = (
+    "DESIGN.md section 5, C15",
+    "Lean 4 theorems over a hand-written model of connect/disconnect/destroy, the _add/_remove_upstream overrides of zip and combine_latest, and liveness under garbage collection (invariants over every valid edit history) + deterministic differential correspondence of both link directions, liveness and deliveries after every operation",
+    "Proof: links stay mutually consistent under every operation and every run (links_consistent_*, links_consistent), a disconnect raises exactly when the edge is absent and then changes nothing, per-input state of zip/combine_latest stays aligned with the upstream list (zip_state_aligned, combine_state_aligned, state_aligned_history), deliveries follow exactly the current edges (delivery_follows_current_edges), a combining node after an edit equals a fresh node over its current inputs holding the same per-input data (combine_latest_after_edit; zip_after_disconnect_partial under the explicit hypothesis that some remaining buffer is empty - the recorded finding zip_stuck_after_disconnect is proved as the negation witness), liveness = reachability from held nodes and undestroyed sinks, dead branches receive nothing, sinks stay active until destroyed (alive_iff_reachable, dead_branch_receives_nothing, sink_stays_active).",
+    "Trusted: Lean kernel (+propext, Classical.choice, Quot.sound); the hand-written model; garbage collection is forced in the harness (gc.collect()) and represented by an explicit collect step; 'referenced by the program' = held by the harness; connect only between held streams and never a parallel edge.",
+)
+CLAIMED["C16"] = (
+    "DESIGN.md section 5, C16",
+    "Lean 4 theorems about the abort semantics of the interpreter and the error branch of every node's update program + deterministic differential correspondence with failing user functions, sinks and consumers; metamorphic oracle against a fresh node of the real class; threaded blocking-emit sample",
+    "Proof: a raise anywhere reaches the emitter (failure_reaches_emitter; with a coroutine-style node: or the awaitable, failure_reaches_emitter_or_awaitable), errors come only from nodes and the run stops at the raise (errors_come_from_nodes, abort_is_immediate), the failing node's state and emissions are untouched for every kind (failing_upd_keeps_state, failing_update_keeps_graph_state) so later elements are processed as if the failing one had not been offered (later_as_if_absent, survivors_never_fail), and the failed element's callback never fires, then or later (failed_never_fires_partial / _forever_partial: proved for graphs of non-buffering kinds of any topology; graphs with metadata-storing kinds are covered by the correspondence and oracle only), sinkFail releases nothing.",
+    "Trusted: Lean kernel (+propext, Classical.choice, Quot.sound); the hand-written model; 'the node whose function raised' identified by a logging wrapper around the catalogue functions; threaded operation sampled in real time.",
+)
+
 NOT_YET = {}
 
 
